@@ -605,6 +605,29 @@ def run(ctx):
                    '%s state = call state + the spec\'s %s delta' % (what, what),
                    '%s: %s: the %s is parsed in a state that is not the call state updated by the '
                    'spec\'s %s delta' % (mname, why, what, what), construct=mname)
+    # every returning path of make_body_parser_and_parsing_state hands out the updated state (not merely some path)
+    bfn = cm.methods('LatexEnvironmentCallParser').get('make_body_parser_and_parsing_state')
+    try:
+        brs = [c_ for c_ in symex.Walker(want_returns=True).run(bfn) if c_.kind == 'return']
+    except symex.TooManyPaths:
+        brs = []
+    seen_b = set()
+    for cs in brs:
+        v = cs.sub
+        st_ = v.elts[1] if isinstance(v, ast.Tuple) and len(v.elts) == 2 else None
+        full = symex.expand(st_, cs.env) if st_ is not None else None
+        okb = isinstance(full, ast.Call) and call_name(full) == 'get_updated_parsing_state_from_delta' and len(full.args) >= 2 \
+            and unparse(full.args[0]) == 'parsing_state' and isinstance(full.args[1], ast.Call) \
+            and call_name(full.args[1]) == 'make_body_parsing_state_delta'
+        key_ = (id(cs.node), okb)
+        if key_ in seen_b:
+            continue
+        seen_b.add(key_)
+        ctx.decide('R10h', okb, cm, cs.node, 'returns (parser, call state + body delta)',
+                   'make_body_parser_and_parsing_state returns %s on the path [%s]: the state handed on for the body is not '
+                   'the call state updated by the body delta, so the direct contents of a math environment are recorded in '
+                   'text mode (only nested groups get the delta)' % (short(v, 60), ' & '.join(cs.cond_src())[-120:]),
+                   construct='make_body_parser_and_parsing_state: returned state')
     sp = repo.mod('pylatexenc.macrospec._specclasses')
     ci = sp.methods('CallableSpec').get('__init__')
     if ci is None:
@@ -696,6 +719,32 @@ def run(ctx):
                    'after `$a \\verb|x| b$` the text that follows is recorded in math mode'
                    % ('None' if isnone else short(cs.sub, 50), ' & '.join(cs.cond_src())[-120:]),
                    construct='get_parser_parsing_state_delta: %s' % ('no change' if isnone else 'changed state'))
+
+    # ---- R10p: a field takes the value prepared for it
+    ctx.rule('R10p', 'in the specification and parser classes no field is set from a like-named *other* variable while the '
+                     'variable prepared for it (a local or parameter of the field\'s own name) is never read: the delta meant '
+                     'for the arguments of a call is not the one meant for its body (grules.mismatched_field_source; exercised '
+                     'on a built-in example on every run)', 0)
+    from .. import grules as _gr
+    from ..core import set_parents as _sp
+    ex_ = ast.parse('class S:\n def __init__(self, **kw):\n  a_delta = kw.pop("a_delta", None)\n  b_delta = kw.pop("b_delta", None)\n'
+                    '  self.b_delta = b_delta\n  self.a_delta = b_delta\n')
+    _sp(ex_)
+    if len(list(_gr.mismatched_field_source(ex_.body[0].body[0]))) != 1:
+        raise AnalysisError('R10p: the rule no longer fires on its built-in example')
+    n_mf = 0
+    for mod_ in sorted(repo.modules.values(), key=lambda m_: m_.name):
+        if not mod_.name.startswith(('pylatexenc.macrospec', 'pylatexenc.latexnodes', 'pylatexenc.latexwalker')):
+            continue
+        for q_, f_ in sorted(mod_.functions.items()):
+            for st_, fld_, src_ in _gr.mismatched_field_source(f_):
+                n_mf += 1
+                ctx.refuted('R10p', mod_, st_, '%s sets self.%s from `%s` although it prepared a variable `%s` that is never '
+                            'read: the field carries the value meant for another one (the parsing-state change meant for the '
+                            'body of an environment is applied to its arguments, so `{2}` in \\begin{alignat}{2} is recorded in '
+                            'math mode)' % (q_, fld_, src_, fld_), construct='%s: self.%s = %s' % (q_, fld_, src_))
+    ctx.holds('R10p', repo.mod('pylatexenc.macrospec._specclasses'), None, 'no field set from a like-named other variable',
+              construct='mismatched field source scan', trivial=True)
 
     return 'other', (
         'Decides the places where the mode of a node is determined: the math parser\'s contents '
